@@ -345,15 +345,17 @@ def warn_vs_strict(cfg, b):
 
 
 # ------------------------------------------------------------------ C01: well-formed inputs only
-def strict_ref_wf(cfg, b):
-    """strict_ref on a shape whose constrained leaves are assumed valid under the *live* tables
-    (that is what 'well-formed' means for the generator); RefDec (pinned tables) must then accept."""
+def assume_leaves(cfg, b):
+    """Restrict the symbolic leaves of a shape to the interval of their type's *live* value set in which the
+    shape placed them (cfg['leaves'] = [[offset, width, type key, lo, hi]]; lo None = whole value set)."""
+    if not cfg.get("leaves"):
+        return
     from oracle.refdec import in_valid
     from oracle.shapes import live_layout
 
     LT = live_layout()["types"]
     conds = []
-    for off, w, tkey, lo, hi in cfg.get("leaves", []):
+    for off, w, tkey, lo, hi in cfg["leaves"]:
         d = LT[tkey]
         v = int.from_bytes(b[off:off + w], "big", signed=d["signed"])
         if lo is None:
@@ -362,6 +364,74 @@ def strict_ref_wf(cfg, b):
             conds.append(lo <= v)
             conds.append(v < hi)
     assume(all(conds))
-    c = dict(cfg)
-    checks = strict_ref(c, b)
+
+
+def strict_ref_wf(cfg, b):
+    """strict_ref on a shape whose leaves are assumed valid under the *live* tables (that is what
+    'well-formed' means for the generator); RefDec (pinned tables) must then accept."""
+    assume_leaves(cfg, b)
+    checks = strict_ref(dict(cfg), b)
     return [("wellformed-" + t, x) for t, x in checks]
+
+
+# ------------------------------------------------------------------ C11: events <-> objects
+def _events_equal(evs, ref):
+    """two lists of real events: same length, paths, declared types, value classes; values as one condition"""
+    if len(evs) != len(ref):
+        return False, True
+    st, va = [], []
+    for a, e in zip(evs, ref):
+        x, y = _same_event(a, e)
+        st.append(x)
+        va.append(y)
+    return all(st), all(va)
+
+
+def obj_events(cfg, b):
+    from tpmstream.common.canonical import Canonical
+    from tpmstream.common.object import events_to_obj, obj_to_events
+
+    T, cc, enc = _cfg(cfg)
+    assume_leaves(cfg, b)
+    r = decode_full(T, b, True, cc, enc)
+    if r.crash is not None or r.err is not None:
+        note("not-decodable")
+        return []
+    note("decodable")
+    events = r.events
+    obj = r.obj
+    rebuilt = events_to_obj(events, command_code=cc)
+    checks = [("decoder-object-equals-object-from-events", obj == rebuilt),
+              ("same-class", type(obj) is type(rebuilt))]
+    for label, o in (("decoder-object", obj), ("rebuilt-object", rebuilt)):
+        evs = list(obj_to_events(o))
+        checks.append(("%s-to-events-count" % label, len(evs) == len(events)))
+        st, va = _events_equal(evs, events)
+        checks.append(("%s-to-events-structure" % label, st))
+        checks.append(("%s-to-events-values" % label, va))
+        if st:
+            out = []
+            for ch in Binary.unmarshal(evs):
+                out.extend(as_list(ch))
+            checks.append(("%s-reencodes-to-input" % label, bytes_eq(out, as_list(b))))
+    return checks
+
+
+def canonical_facade(cfg, b):
+    """Canonical(bytes).object / .events agree with the direct decode (concrete bytes: Canonical requires
+    a real bytes object, so this runs on the shape itself, without symbolic leaves)"""
+    from tpmstream.common.canonical import Canonical
+
+    T, cc, enc = _cfg(cfg)
+    if enc:
+        return []  # Canonical has no way to say that a response's first parameter is encrypted
+    r = decode_full(T, b, True, cc, enc)
+    if r.crash is not None or r.err is not None:
+        return []
+    c = Canonical(bytes(b), format_in=Binary, tpm_type=T, command_code=cc)
+    evs = c.events
+    st, va = _events_equal(evs, r.events)
+    c2 = Canonical(r.obj)
+    st2, va2 = _events_equal(list(c2.events), r.events)
+    return [("canonical-events", st and va), ("canonical-object", c.object == r.obj),
+            ("canonical-from-object-events", st2 and va2)]
